@@ -92,6 +92,9 @@ class Arith:
         self.exact = exact
         self.banded = 0
         self.strict = 0
+        # SYS lock-step: the executor has already accepted the batch when the model sees it; an exact fit
+        # (a scheduler handing out precisely what is free) is inside the band, where either outcome is allowed
+        self.admission_follows_impl = False
 
     def fl(self, x):
         if x == 0:
@@ -108,6 +111,9 @@ class Arith:
             if what == "batch cpu" and a.denominator == 1 and b.denominator == 1:
                 self.strict += 1
                 return a > b      # integer CPU counts are exact in floats too
+            if self.admission_follows_impl and what in ("batch cpu", "batch ram"):
+                self.banded += 1
+                return False
             raise Discard(what + " in band")
         self.strict += 1
         return a > b
@@ -208,7 +214,20 @@ class MPool:
         ar = self.ar
         self.check_suspends(sus)
         for c in sus:
-            d = max(1, ar.fl(c.ram / 20 * self.tps))
+            x = c.ram / 20 * self.tps
+            if ar.exact or x == 0 or not near(x, round(x)):
+                d = max(1, ar.fl(x))
+            else:
+                # inside the band both neighbouring durations are allowed; follow the implementation
+                seen = obs.suspend_ticks(c)
+                cand = {max(1, round(x) - 1), max(1, round(x))}
+                if seen is None:
+                    raise Discard("write-out duration in band")
+                if seen not in cand:
+                    raise Violation("C10.duration", {"container": c.label, "ram": float(c.ram), "write_out_ticks": seen,
+                                                     "allowed": sorted(cand)})
+                d = seen
+                ar.banded += 1
             c.sus_left = d
             c.sus_total = d
             for op in c.ops[c.idx:]:
@@ -386,6 +405,9 @@ class NoObs:
     """Used when the model runs without an implementation next to it."""
 
     def forced_mem(self, c):
+        return None
+
+    def suspend_ticks(self, c):
         return None
 
     def pool_victims(self, pool):
